@@ -203,6 +203,13 @@ def try_prove(site, pf):
         return
     cons, nes, used = pf.holds_at(site.bi, None)
     un = []
+    if k.startswith("str-index"):
+        # a str slice also panics when an end is inside a character: guards cannot show that an offset is a
+        # character boundary; only 0 and the string's own length are boundaries by construction
+        for op in o[1:]:
+            if not (op == ("const", 0) or op == ("len", o[0])):
+                un.append("char-boundary")
+                break
     for name, rel, a, b in prim:
         if M.prove(cons, nes, rel, a, b):
             site.proved_obls.append(name)
